@@ -182,6 +182,28 @@ def _probe_spec(record):
     return cs
 
 
+def _count_spec(which):
+    """a probing spec that simply RETURNS the feature count it is shown (in or out), whatever the precisions: the layer cost is then
+    sum_ij theta_in[i] * theta_w[j] * count = count, because both coefficient vectors are probability vectors"""
+    from plinio.cost import CostSpec
+    from plinio.cost.pattern import Conv2dGeneric, Conv2dDW, LinearGeneric
+
+    def fn(spec):
+        keys = ('in_channels', 'in_features') if which == 'in' else ('out_channels', 'out_features')
+        if '_parameters' in spec and spec['_parameters'].get('weight') is not None and spec['_parameters']['weight'].dim() == 2:
+            keys = keys[::-1]
+        for k in keys:
+            if k in spec and spec[k] is not None:
+                v = spec[k]
+                return v if isinstance(v, torch.Tensor) else torch.tensor(float(v))
+        return torch.tensor(0.0)
+    cs = CostSpec(shared=True, default_behavior='zero')
+    cs[Conv2dGeneric] = fn
+    cs[Conv2dDW] = fn
+    cs[LinearGeneric] = fn
+    return cs
+
+
 def _check(nas, x, prog, info, model, record, metrics, label, add, d8_ok):
     summ = nas.summary()
     tot, per_layer = _ref_costs(prog, info, summ, model)
@@ -195,6 +217,15 @@ def _check(nas, x, prog, info, model, record, metrics, label, add, d8_ok):
                 sig += '/per-channel-with-pruned-channels'
             add('cost-differs', sig, f'{label}: get_cost({name})={got} but the exact bit-cost of the reported assignment is {tot[name]} '
                                      f'(per layer: { {n: (pl["bits"], pl["in_alive"]) for n, pl in per_layer.items()} })')
+    # counting specs: every (input precision, weight precision) alternative must be priced - the 0-bit one included - so that the
+    # coefficient-weighted sum of a constant is that constant
+    for name, key in (('count_in', 'in_alive'), ('count_out', 'out_alive')):
+        got = float(nas.get_cost(name))
+        want = float(sum(pl[key] for pl in per_layer.values()))
+        if abs(got - want) > 1e-3 + 1e-5 * abs(want):
+            add('count-spec-differs', f'count-spec-differs/{name}',
+                f'{label}: a cost spec that returns the {key.split("_")[0]}put feature count it is shown gives {got}, the alive counts sum to {want} '
+                f'({ {n: pl[key] for n, pl in per_layer.items()} })')
     # probing spec: effective counts under the PyTorch names of the layer type
     record.clear()
     nas.get_cost('probe')
@@ -233,7 +264,7 @@ def run_case(case, seed):
 
     from plinio.cost import params_bit, ops_bit
     record = {}
-    spec = {'params_bit': params_bit, 'ops_bit': ops_bit, 'probe': _probe_spec(record)}
+    spec = {'params_bit': params_bit, 'ops_bit': ops_bit, 'probe': _probe_spec(record), 'count_in': _count_spec('in'), 'count_out': _count_spec('out')}
     kw = {'cost': spec}
     if mode == 'channel':
         from plinio.methods.mps import MPSType
